@@ -18,11 +18,13 @@
 (* Only these rules are used by Render, so every rendering of one tree is   *)
 (* by the language definition the same program.                             *)
 (*                                                                          *)
-(* The machine takes one (tree, style) through the compiler front end as    *)
-(* linear.c does it (module Linear), one action per function.  Property     *)
-(* LayoutIndependent: the token stream that leaves the lineariser is, after *)
-(* reading SetTab/BackSet/BackTab as { ; }, the canonical stream of the     *)
-(* tree -- for every tree within the bound and every style.                 *)
+(* The machine takes one (tree, style) through the compiler front end: the  *)
+(* characters through include.c/scan.c/syscmd.c (module Scan), the tokens   *)
+(* through linear.c (module Linear), one action per function.  Property     *)
+(* LayoutIndependent: the scanner delivers the tokens of the program, and   *)
+(* the token stream that leaves the lineariser is, after reading            *)
+(* SetTab/BackSet/BackTab as { ; }, the canonical stream of the tree -- for *)
+(* every tree within the bound and every style.                             *)
 (* The terminal action exports the rendering (the exact characters of every *)
 (* line) together with the predicted stage streams; the check replays them  *)
 (* through `aldor -Fap` and `aldor -WD+lin`.                                *)
@@ -32,7 +34,8 @@ EXTENDS Scan, Linear, LayoutVocab, Json
 CONSTANTS MaxN,        \* trees with at most MaxN statements in total ...
           MaxDepth,    \* ... and block nesting at most MaxDepth
           Use0, Use1, Use2, Use3,   \* the shapes (by number of holes) the enumeration uses
-          TreeSource,  \* "enum": all trees within the bound; "progs": LayoutVocab!ProgTrees
+          TreeSource,  \* "enum": all trees within the bound; "enum+extra": and LayoutVocab!ExtraTrees;
+                       \* "progs": LayoutVocab!ProgTrees (real programs, see gen/layout_progs.py)
           StyleSet,    \* name of the style family, see Styles
           Seed,        \* spreads the derived style dimensions
           ScanChars,   \* TRUE: tokens come from the character-level scanner (Scan.tla)
@@ -42,7 +45,7 @@ CONSTANTS MaxN,        \* trees with at most MaxN statements in total ...
 (* Vocabulary: LayoutVocab (generated from gen/layout.py) has the statement *)
 (* shapes, made of real Aldor tokens.  KindOf is what the language          *)
 (* definition makes of a spelling; with ScanChars the character-level model *)
-(* of scan.c decides instead and the two are compared (ScanAgrees).         *)
+(* of scan.c decides instead and the two are compared (ScanReport).         *)
 LayoutKW == {NL, PILE, ENDPILE, SETTAB, BACKSET, BACKTAB}
 KindOf(s) == IF s \in AlphaKW \cup SymKW \cup LayoutKW THEN "kw"
              ELSE IF s \in Comments THEN "com"
@@ -78,9 +81,6 @@ BlocksN(n, d) ==
 Trees == IF TreeSource = "progs" THEN {ProgTrees[i] : i \in 1..Len(ProgTrees)}
          ELSE UNION {BlocksN(n, MaxDepth - 1) : n \in 1..MaxN}
               \cup (IF TreeSource = "enum+extra" THEN {ExtraTrees[i] : i \in 1..Len(ExtraTrees)} ELSE {})
-
-RECURSIVE BlockSize(_)
-BlockSize(b) == FoldLeft(LAMBDA acc, s : acc + 1 + FoldLeft(LAMBDA a2, bb : a2 + BlockSize(bb), 0, s.bl), 0, b)
 
 (* a small number that differs between most trees: spreads secondary style  *)
 (* dimensions over the trees                                                 *)
@@ -281,11 +281,13 @@ IndentLevel(lead) == FoldLeft(LAMBDA i, c : IF c = "s" THEN i + 1 ELSE ((i \div 
 (* Tokens): longest match; brackets, comma and semicolon never combine with *)
 (* a neighbour; `.` followed by digits is no float after an identifier, a   *)
 (* literal or a closer; a word and a symbol do not combine.  (Scan.tla's    *)
-(* DFA confirms every omission: ScanAgrees.)                                *)
+(* DFA confirms every omission: ScanReport here, all pairs in ScanPairs.) *)
 Punct == {"(", ")", ",", ";", "[", "]", "{", "}"}
 Wordy(t) == t \in AlphaKW \/ KindOf(t) \in {"id", "int", "float", "str"}
+BarFirst == {"|", "|)", "|]", "|}", "||"}          \* (| [| {| |) |] |} are tokens of their own
 NeedBlank(p, t1, t2) ==            \* p: the token before t1 ("" if none)
-  IF t1 \in Punct \/ t2 \in Punct THEN FALSE
+  IF (t1 \in {"(", "[", "{"} /\ t2 \in BarFirst) \/ (t1 = "|" /\ t2 \in {")", "]", "}"}) THEN TRUE
+  ELSE IF t1 \in Punct \/ t2 \in Punct THEN FALSE
   ELSE IF t1 = "." THEN ~(KindOf(t2) \in {"id", "int"} /\ (KindOf(p) \in {"id", "int", "float", "str"} \/ p \in {")", "]", "}"}))
   ELSE IF t2 = "." THEN KindOf(t1) \in {"int", "float"} \/ t1 \in {"0", "1"} \/ ~Wordy(t1)
   ELSE ~((Wordy(t1) /\ t2 \in SymKW /\ KindOf(t1) \notin {"int", "float"}) \/ (t1 \in SymKW /\ Wordy(t2) /\ KindOf(t2) # "float"))
